@@ -55,6 +55,20 @@ def corpus_groups(mode):
     return out
 
 
+def vec_groups(tier, rng):
+    quick = tier == "quick"
+    out = []
+    cases = [([1, 4], "clear"), ([2, 0, 3], "clear"), ([0, 1, 2, 5], "clear"), ([1, 1], "append"), ([0, 2, 1], "append"),
+             ([2], "pre3.4"), ([0, 2], "pre1.2"), ([1, 3], "pre5.6"), ([3, 1], "pre0.2")]
+    if not quick:
+        cases += [([1, 8], "clear"), ([2, 2, 2, 6], "clear"), ([4], "pre7.9"), ([1, 2, 3, 4], "append"), ([3], "pre2.16")]
+    for scr, vec in cases:
+        for pan in _panic_subsets(scr, rng, 2):
+            s = "script=%s panics=%s vec=%s" % (",".join(map(str, scr)), ",".join("%d.%d" % c for c in pan), vec)
+            out.append(f"{s} sched=random seed={rng.randrange(1 << 30)} iters={25 if quick else 400}")
+    return out
+
+
 def groups(tier, rng):
     quick = tier == "quick"
     scripts = [[1], [2], [2, 1], [0, 3, 1], [1, 1, 1], [2, 2], [1, 2], [3, 1, 2], [4, 0, 2]]
@@ -77,6 +91,9 @@ def groups(tier, rng):
                 gs.append(f"{s} sched=random seed={rng.randrange(1 << 30)} iters={it_r}")
                 gs.append(f"{s} sched=pct{rng.choice([2, 3])} seed={rng.randrange(1 << 30)} iters={it_p}")
     gs.append("script=1 panics= bombs=1.0 sched=dfs seed=0 iters=100000 spur=1")
+    # vector discipline: ONE result vector across the broadcasts of the script (cleared in between, appended to,
+    # or starting with k elements and capacity c), thread counts growing after a smaller broadcast
+    gs += vec_groups(tier, rng)
     # bounded DFS (exhaustive for the smallest cases)
     gs.append("script=1 panics= sched=dfs seed=0 iters=100000 spur=2")
     gs.append("script=1 panics=1.1 sched=dfs seed=0 iters=100000 spur=1")
@@ -92,26 +109,46 @@ def groups(tier, rng):
     return gs
 
 
+def _run_groups(hbin, group_lines, timeout):
+    """one output line per group; a group on which the harness process dies gets `None` and the run resumes after it"""
+    out = []
+    notes = {}
+    todo = list(group_lines)
+    while todo:
+        try:
+            p = subprocess.run([hbin, "replay"], input="\n".join(todo) + "\n", stdout=subprocess.PIPE,
+                               stderr=subprocess.PIPE, text=True, timeout=timeout, env=ENV)
+            lines, rc, err = p.stdout.split("\n"), p.returncode, p.stderr
+        except subprocess.TimeoutExpired as e:
+            dec = lambda b: b.decode() if isinstance(b, bytes) else (b or "")
+            lines, rc, err = dec(e.stdout).split("\n"), 124, dec(e.stderr)
+        if lines and lines[-1] == "":
+            lines.pop()
+        lines = lines[:len(todo)]
+        out.extend(lines)
+        if len(lines) == len(todo):
+            break
+        # the harness died on group number len(lines)
+        why = [l for l in err.split("\n") if l.startswith("hx-sched:")]
+        notes[len(out)] = "rc=%s %s" % (rc, (why[-1][:200] if why else err.strip().split("\n")[-1][:120]))
+        out.append(None)
+        todo = todo[len(lines) + 1:]
+    return out, notes
+
+
 def _runner(group_lines):
     def run(st, hbin):
-        try:
-            p = subprocess.run([hbin, "replay"], input="\n".join(group_lines) + "\n", stdout=subprocess.PIPE,
-                               stderr=subprocess.DEVNULL, text=True, timeout=st.impl_timeout, env=ENV)
-            out = p.stdout.split("\n")
-            rc = p.returncode
-        except subprocess.TimeoutExpired as e:
-            out = (e.stdout.decode() if isinstance(e.stdout, bytes) else (e.stdout or "")).split("\n")
-            rc = 124
-        if out and out[-1] == "":
-            out.pop()
+        out, notes = _run_groups(hbin, group_lines, st.impl_timeout)
         cases, impl = [], []
         hist = collections.Counter()
         for gi, g in enumerate(group_lines):
-            if gi >= len(out) or out[gi].startswith("panic "):
+            if out[gi] is None or out[gi].startswith("panic "):
                 cases.append(g + " #crash")
-                impl.append("crash rc=%s %s" % (rc, out[gi][:80] if gi < len(out) else ""))
+                impl.append("crash " + (notes.get(gi) or out[gi][:80]))
                 continue
-            key = g.split(" ")[0] + " " + g.split(" ")[2].split("=")[1].rstrip("0123456789")
+            toks = _parse_group(g)[3]
+            key = "script=%s %s%s" % (toks.get("script", ""), toks.get("sched", "").rstrip("0123456789"),
+                                      (" vec=" + toks["vec"]) if "vec" in toks else "")
             for t in out[gi].split(" ## "):
                 head, _, evs = t.partition(":")
                 cases.append(g + " #" + head)
@@ -140,7 +177,14 @@ def streams(mode, tier, rng):
                 model_input=lambda c, i: c + "\t" + i,
                 impl_runner=_runner(gs), impl_timeout=170 if tier == "quick" else 1500,
                 describe="verbatim pool.rs on shuttle; each distinct schedule trace replayed through the extracted step")
-    return [st]
+    vg = vec_groups(tier, rng)
+    st2 = Stream("trace-replay-vector-release", mode, list(vg),
+                 compare=lambda i, m: m == "accept" and "!" not in i and not i.startswith("crash"),
+                 nontrivial=_nontrivial, model_input=lambda c, i: c + "\t" + i, release=True,
+                 impl_runner=_runner(vg), impl_timeout=170 if tier == "quick" else 900,
+                 describe="same, release build (std's set_len precondition is not checked there): the vector guards of the "
+                          "harness (len <= capacity, n+1 new slots, old elements untouched) are what reports")
+    return [st, st2]
 
 
 BFS_QUICK = ["1", "2", "1 1", "2 1", "1 2", "0 2 1", "1 1 1"]
@@ -196,7 +240,7 @@ def _fmt_group(scr, pan, bombs, d):
     out = ["script=" + ",".join(map(str, scr)), "panics=" + ",".join("%d.%d" % c for c in pan)]
     if bombs:
         out.append("bombs=" + ",".join("%d.%d" % c for c in bombs))
-    for k in ("sched", "seed", "iters", "spur"):
+    for k in ("vec", "sched", "seed", "iters", "spur"):
         if k in d:
             out.append(f"{k}={d[k]}")
     return " ".join(out)
@@ -228,11 +272,16 @@ def _candidates(scr, pan, bombs, d):
 def _failing(group, mode, hbin, drv):
     """(head, trace, verdict) of the shortest violating trace of the group, or None"""
     try:
-        p = subprocess.run([hbin, "replay"], input=group + "\n", stdout=subprocess.PIPE, stderr=subprocess.DEVNULL,
+        p = subprocess.run([hbin, "replay"], input=group + "\n", stdout=subprocess.PIPE, stderr=subprocess.PIPE,
                            text=True, timeout=120, env=ENV)
     except subprocess.TimeoutExpired:
         return None
     line = p.stdout.split("\n")[0] if p.stdout else ""
+    if p.returncode != 0 and not line:
+        # the harness process died: for C06 that is a failing outcome
+        why = [l for l in (p.stderr or "").split("\n") if l.startswith("hx-sched:")]
+        note = "crash rc=%s %s" % (p.returncode, why[-1][:200] if why else "")
+        return ("crash", note, "false harness-crash " + note) if mode == "c06" else None
     if not line or line.startswith("panic "):
         return None
     traces = [t.partition(":") for t in line.split(" ## ")]
